@@ -574,6 +574,7 @@ def eval_backpressure(case, prop="C06"):
     if stop["kind"] == "none" and out["end"] == "stop":
         init = out["initial"].get("data") or {}
         got = list(init.get(name) or [])
+        nulled = False
         ids = {}
         for p_ in out["initial"].get("pending", []):
             ids[p_["id"]] = p_
@@ -585,9 +586,16 @@ def eval_backpressure(case, prop="C06"):
                 if "items" in inc and tgt.get("path") == [name]:
                     got.extend(inc["items"])
                 elif "data" in inc and tgt.get("path") == [] and name in (inc["data"] or {}):
-                    got = list(inc["data"][name]) + got
+                    if inc["data"][name] is None:
+                        nulled = True  # the source failed within the initial items: the list itself is null
+                    else:
+                        got = list(inc["data"][name]) + got
         key = [g["id"] if isinstance(g, dict) else g for g in got]
-        if case.get("fail_at") is not None:
+        if nulled or (name in init and init[name] is None):
+            if case.get("fail_at") is None or case["fail_at"] >= case["initial"]:
+                bad("items-lost-or-reordered", f"the list is null but the source did not fail within the first "
+                    f"{case['initial']} items")
+        elif case.get("fail_at") is not None:
             # the source fails at index fail_at: what was delivered before the failure is a gap-free prefix
             if key != list(range(len(key))) or len(key) > case["fail_at"]:
                 bad("items-lost-or-reordered", f"source failed at {case['fail_at']}: assembled {len(key)} items "
